@@ -15,6 +15,33 @@ import IrisVerif.Model.Stacked
 
 namespace IrisVerif.Stacked
 
+/-! ## the `method` option: `_SIMULATOR_MODULE` of `simultaneous/_simulate.py` -/
+
+inductive Method where
+  | firstOrder | periodByPeriod | stackedTime
+  deriving DecidableEq, Repr, Inhabited
+
+/-- the documented spellings; anything else is a `KeyError` -/
+def resolveMethod (s : String) : Option Method :=
+  if s = "first_order" then some .firstOrder
+  else if s = "period_by_period" ∨ s = "period" then some .periodByPeriod
+  else if s = "stacked_time" ∨ s = "stacked" then some .stackedTime
+  else none
+
+def Method.name : Method → String
+  | .firstOrder => "first_order" | .periodByPeriod => "period_by_period" | .stackedTime => "stacked_time"
+
+/-- the frames of a run depend on the resolved method only (no plan) -/
+def framesOfMethod (m : Method) (baseFirst n : Nat) (breaks : List Bool) : List Frame :=
+  match m with
+  | .stackedTime => stackedFrames baseFirst n breaks
+  | .periodByPeriod => periodFrames baseFirst n
+  | .firstOrder => [⟨baseFirst, baseFirst + n - 1, baseFirst + n - 1⟩]
+
+/-- the whole run for a method given by its string: resolve, split into frames, loop (`none` = KeyError) -/
+def runMethod (solve : Frame → Data → Data) (un : List Nat) (method : String) (baseFirst n : Nat) (main : Data) : Option Data :=
+  (resolveMethod method).map (fun m => runFrames solve un (framesOfMethod m baseFirst n (breakPoints main un baseFirst n)) main)
+
 /-! ## variants: `exhaust_then_last` and the zip of `Inlay.simulate` -/
 
 /-- the `k`-th item produced by `exhaust_then_last(own)`: the own items, then the last one for ever (`None` if there is none) -/
